@@ -3,7 +3,7 @@ import ast
 
 from . import rule, info
 from ..program import AnalysisError, src, norm, ClassInfo
-from ..util import (is_name, calls_in, callee_qual, deref, ancestors, evaluator_calls, stmt_of, parent,
+from ..util import (choice_leaves, search_loop_rejects, is_name, calls_in, callee_qual, deref, ancestors, evaluator_calls, stmt_of, parent,
                     handler_outcomes, completes_normally, enclosing_trys, handler_covers, in_handler_of)
 from .common import option_usage, raise_discipline
 from ..pattern import match, matches
@@ -215,8 +215,8 @@ def dict_branch(ctx):
     it = deref(cfg, cfg.node_of(inner), inner.iter)
     ctx.ob(is_name(it, spec), u, 'spec keys are tried in the spec\'s own order: for %s in %s' % (src(inner.target), src(inner.iter)))
     # for-else rejection
-    ok = len(inner.orelse) == 1 and isinstance(inner.orelse[0], ast.Raise)
-    ctx.ob(ok, u, 'a target key matching no spec key is rejected (for-else raise)')
+    ok, why, _ = search_loop_rejects(cfg, cfg.node_of(inner), cfg.node_of(outer))
+    ctx.ob(ok, u, 'a target key matching no spec key is rejected, a matched one is not', why)
     # first match wins: break after storing the value and discarding the requirement
     breaks = [n for n in ast.walk(inner) if isinstance(n, ast.Break)]
     evs = evaluator_calls(p, u)
@@ -243,7 +243,7 @@ def dict_branch(ctx):
         # Required(key) is unwrapped for matching
         ks = key_ev[0].args[1]
         kdefs = cfg.reaching_defs(kn, ks.id) if isinstance(ks, ast.Name) else []
-        forms = sorted(norm(v) for _, v in kdefs if isinstance(v, ast.AST))
+        forms = sorted(norm(leaf) for _, v in kdefs if isinstance(v, ast.AST) for leaf in choice_leaves(v))
         ctx.ob(forms == sorted([inner.target.id, inner.target.id + '.key']), u,
                'the key pattern is the spec key, unwrapped when Required: %s' % forms)
         disc = [c for c in calls_in(u) if isinstance(c.func, ast.Attribute) and c.func.attr == 'discard']
@@ -331,8 +331,8 @@ def dispatcher(ctx):
         ok3 = len(hs) == 1 and p.global_qualname(u, hs[0].ast.type) == 'core.GlomError' and \
             set(handler_outcomes(cfg, hs[0])) <= {'normal', 'continue'}
         ctx.ob(ok3, u, 'a failing alternative moves on to the next one')
-        ok4 = bool(inner.orelse) and any(isinstance(x, ast.Raise) for x in ast.walk(ast.Module(body=inner.orelse, type_ignores=[])))
-        ctx.ob(ok4, u, 'an item matching no alternative rejects the target (for-else raise)')
+        ok4, why, _ = search_loop_rejects(cfg, cfg.node_of(inner), cfg.node_of(loops[0]))
+        ctx.ob(ok4, u, 'an item matching no alternative rejects the target, a matched one does not', why)
     # tuple: type, length, positional zip
     tb = tup.body
     ok = isinstance(tb[0], ast.If) and norm(tb[0].test) == 'not isinstance(%s, tuple)' % target \
